@@ -53,10 +53,10 @@ MIN_OBS = {'quick': {'evaluations': 10000, 'c08.rejections_checked': 8500, 'c08.
                      'c08.accepted_traces_compared': 1800, 'c08.argv_records_compared': 9000,
                      'c08.file_contents_compared': 1500, 'c08.directory_trees_compared': 250,
                      'c08.indirect_rejections': 150, 'classes': 9000},
-           'thorough': {'evaluations': 45000, 'c08.rejections_checked': 28000, 'c08.no_effect_checked': 28000,
-                        'c08.accepted_traces_compared': 15000, 'c08.argv_records_compared': 60000,
-                        'c08.file_contents_compared': 8000, 'c08.directory_trees_compared': 1200,
-                        'c08.indirect_rejections': 400, 'classes': 10000}}
+           'thorough': {'evaluations': 90000, 'c08.rejections_checked': 55000, 'c08.no_effect_checked': 55000,
+                        'c08.accepted_traces_compared': 35000, 'c08.argv_records_compared': 120000,
+                        'c08.file_contents_compared': 15000, 'c08.directory_trees_compared': 2500,
+                        'c08.indirect_rejections': 600, 'classes': 10000}}
 _HDS_ROOTS = {'home', 'act-home'}
 
 
@@ -75,7 +75,7 @@ def _known_regex_of_home_path(v):
 
 KNOWN = {'regex_of_home_path_internal_error': _known_regex_of_home_path}
 
-N_RAND = {'quick': 1600, 'thorough': 50000}
+N_RAND = {'quick': 1600, 'thorough': 120000}
 
 
 # =============================================================================================================
